@@ -127,7 +127,11 @@ func genBigBulk(job *Job, prop string, seed, idx uint64) *RunOutcome {
 			if r.Chance(0.8) {
 				q.HasLimit, q.Limit = true, []int{1, 5, 17, n / 4, n}[r.Intn(5)]
 			}
-			rf.Ops = append(rf.Ops, Op{K: "FindAll", Q: q})
+			if job.Params["derived"] == "1" {
+				rf.Ops = append(rf.Ops, Op{K: "Derived", Q: q, StopAfter: []int{0, 1, 3, 300}[r.Intn(4)]})
+			} else {
+				rf.Ops = append(rf.Ops, Op{K: "FindAll", Q: q})
+			}
 		}
 	}
 	nOps := r.Range(1, 3)
